@@ -27,10 +27,10 @@ c1, o1 = sh("/venv/bin/python ../%s_demo.py" % ID, cwd=wt)
 out["ran"].append("demo with change: exit %d" % c1)
 c2, o2 = sh("/venv/bin/python -m pytest -q -p no:cacheprovider --timeout=900 -n 8 2>&1 | tail -1", cwd=wt)
 out["ran"].append("existing suite with change: %s" % o2.strip())
-sh("git stash", cwd=wt); sh("/tmp/seed/build_ext.sh %s" % wt)
+sh("git apply -R %s" % patch, cwd=wt); sh("/tmp/seed/build_ext.sh %s" % wt)   # (git stash is shared between worktrees)
 c3, o3 = sh("/venv/bin/python ../%s_demo.py" % ID, cwd=wt)
 out["ran"].append("demo without change: exit %d" % c3)
-sh("git stash pop", cwd=wt); sh("/tmp/seed/build_ext.sh %s" % wt)
+sh("git apply %s" % patch, cwd=wt); sh("/tmp/seed/build_ext.sh %s" % wt)
 ok = c1 != 0 and c3 == 0 and " passed" in o2 and "failed" not in o2
 print("demo with change exit=%d, without exit=%d, suite: %s -> %s" % (c1, c3, o2.strip(), "CONFIRMED" if ok else "REJECTED"))
 results = {}
